@@ -2,6 +2,7 @@ package iavl
 
 import (
 	"encoding/binary"
+	"errors"
 	"fmt"
 )
 
@@ -80,6 +81,10 @@ func (i *CompressImporter) Add(node *ExportNode) error {
 		i.minKeyStack = append(i.minKeyStack, key)
 		i.versionStack = append(i.versionStack, node.Version)
 	} else {
+		// a branch node needs its two children to have been added before
+		if len(i.minKeyStack) < 2 || len(i.versionStack) < 2 {
+			return errors.New("invalid node structure, branch node without two preceding children")
+		}
 		// use the min-key in right branch as the node key
 		node.Key = i.minKeyStack[len(i.minKeyStack)-1]
 		// leave the min-key in left branch in the stack
@@ -111,6 +116,9 @@ func deltaDecode(key, lastKey []byte) ([]byte, error) {
 	key = key[n:]
 	if shared == 0 {
 		return key, nil
+	}
+	if shared > uint64(len(lastKey)) {
+		return nil, fmt.Errorf("shared prefix length %d exceeds the previous key length %d", shared, len(lastKey))
 	}
 
 	newKey := make([]byte, shared+uint64(len(key)))
